@@ -364,4 +364,356 @@ theorem removeAttribute_atomic {h h' : Heap} {el : Id} {known isTuple allowed : 
     | exact hr.1.symm
     | (split at hr <;> simp at hr; exact hr.1.symm)
 
+/-! ### every operation of a history -/
+
+/-- the receiver of `addText` / `addCDATA` is an element (only `Element` has these methods) and the
+    Text / CDATASection object created inside the call is not the receiver -/
+def Sane (h : Heap) : Op → Prop
+  | .addText p t _ _ => (h p).kind = .elem ∧ t ≠ p
+  | .addCDATA p t _ => (h p).kind = .elem ∧ t ≠ p
+  | _ => True
+
+/-- **C07 (every entry point of an edit history)**: whatever the operation and whatever the
+    exception, a call that raises leaves the heap — links, child lists, attributes of every node —
+    exactly as it was. -/
+theorem step_atomic {h h' : Heap} {op : Op} {e : Err} (hs : Sane h op)
+    (hr : (step op).run h = (h', .error e)) : h' = h := by
+  cases op with
+  | newNode i k qn =>
+    simp only [step] at hr
+    rw [run_bind, fresh_run] at hr
+    by_cases hb : Blank h i
+    · simp [hb, initNode_run] at hr
+    · simp [hb] at hr; exact hr.1.symm
+  | append p c => exact appendChild_atomic hr
+  | insertBefore p n ref => exact insertBefore_atomic hr
+  | remove p c => exact removeChild_atomic hr
+  | addElement p c a => exact addElement_atomic hr
+  | addText p t a ne =>
+    simp only [step] at hr
+    rw [run_bind, fresh_run] at hr
+    by_cases hb : Blank h t
+    · simp only [hb, if_true] at hr; exact addText_atomic hs.1 hs.2 hr
+    · simp [hb] at hr; exact hr.1.symm
+  | addCDATA p t a =>
+    simp only [step] at hr
+    rw [run_bind, fresh_run] at hr
+    by_cases hb : Blank h t
+    · simp only [hb, if_true] at hr; exact addCDATA_atomic hs.1 hs.2 hr
+    · simp [hb] at hr; exact hr.1.symm
+  | setAttribute el k t a key conv => exact setAttribute_atomic hr
+  | setAttrNS el key conv => exact setAttrNS_atomic hr
+  | removeAttribute el k t a key => exact removeAttribute_atomic hr
+
+/-- **C07 (histories)**: a refused call can be deleted from an edit history without changing the
+    final document. -/
+theorem refused_call_is_skippable {h h' : Heap} {op : Op} {e : Err} (hs : Sane h op)
+    (hr : (step op).run h = (h', .error e)) (rest : List Op) :
+    runOps h (op :: rest) = runOps h rest := by
+  have : ((step op).run h).1 = h := by rw [hr]; exact step_atomic hs hr
+  simp [runOps, this]
+
+/-! ### the constructor protocol: `Factory(text=…, attr=…, parent=p)`
+
+  The new object (and the Text / CDATASection it may have been given) is mutated freely while
+  it is being built; the document is "everything else".  `S` is the set of the new ids. -/
+
+/-- `h'` agrees with `h` on every node outside `S` -/
+def Agree (S : Id → Prop) (h h' : Heap) : Prop := ∀ x, ¬ S x → h' x = h x
+
+theorem Agree.refl (S : Id → Prop) (h : Heap) : Agree S h h := fun _ _ => rfl
+theorem Agree.trans {S : Id → Prop} {h1 h2 h3 : Heap} (a : Agree S h1 h2) (b : Agree S h2 h3) : Agree S h1 h3 :=
+  fun x hx => by rw [b x hx, a x hx]
+
+/-- while it is being built, the new element is an element whose children are new nodes -/
+def Building (S : Id → Prop) (self : Id) (h : Heap) : Prop :=
+  (h self).kind = .elem ∧ ∀ k ∈ (h self).kids, S k
+
+/-- a statement of the constructor body: touches only new nodes, keeps `Building` if it succeeds -/
+def Stage (S : Id → Prop) (self : Id) (m : M Unit) : Prop :=
+  ∀ h1, Building S self h1 →
+    Agree S h1 (m.run h1).1 ∧ (∀ u, (m.run h1).2 = .ok u → Building S self (m.run h1).1)
+
+theorem set_other_rec (h : Heap) (i x : Id) (r : NodeRec) (hne : x ≠ i) : (h.set i r) x = h x := by
+  simp [Heap.set, hne]
+theorem setKids_other (h : Heap) (i x : Id) (v) (hne : x ≠ i) : (setKids h i v) x = h x := by
+  simp [setKids, Heap.set, hne]
+theorem setPrev_other (h : Heap) (i x : Id) (v) (hne : x ≠ i) : (setPrev h i v) x = h x := by
+  simp [setPrev, Heap.set, hne]
+theorem setNext_other (h : Heap) (i x : Id) (v) (hne : x ≠ i) : (setNext h i v) x = h x := by
+  simp [setNext, Heap.set, hne]
+theorem setParent_other (h : Heap) (i x : Id) (v) (hne : x ≠ i) : (setParent h i v) x = h x := by
+  simp [setParent, Heap.set, hne]
+theorem setAttrs_other (h : Heap) (i x : Id) (v) (hne : x ≠ i) : (setAttrs h i v) x = h x := by
+  simp [setAttrs, Heap.set, hne]
+
+/-- appending a just-created node to the element under construction -/
+theorem appendNew_stage {S : Id → Prop} {self t : Id} (hS : S self) (hT : S t) (hne : t ≠ self) (k : Kind) :
+    ∀ h1, Building S self h1 →
+      Agree S h1 ((appendChild self t).run (h1.set t { kind := k, qn := 0 })).1 ∧
+      (∀ u, ((appendChild self t).run (h1.set t { kind := k, qn := 0 })).2 = .ok u →
+        Building S self ((appendChild self t).run (h1.set t { kind := k, qn := 0 })).1) := by
+  intro h1 hB
+  have hself : (h1.set t { kind := k, qn := 0 }) self = h1 self := set_other_rec _ _ _ _ (Ne.symm hne)
+  have hk : ((h1.set t { kind := k, qn := 0 }) self).kind = .elem := by rw [hself]; exact hB.1
+  have hpar : ((h1.set t { kind := k, qn := 0 }) t).parent = none := by simp
+  have hd : DetachOk (h1.set t { kind := k, qn := 0 }) t := by intro q hq; rw [hpar] at hq; cases hq
+  rw [appendChild_run]
+  simp only [hk, ne_eq, not_true, if_false, hd, if_true, detach_of_detached _ _ hpar]
+  constructor
+  · intro x hx
+    have hxt : x ≠ t := fun e => hx (e ▸ hT)
+    have hxs : x ≠ self := fun e => hx (e ▸ hS)
+    rw [setNext_other _ _ _ _ hxt]
+    unfold appRawHeap
+    rw [setParent_other _ _ _ _ hxt, setKids_other _ _ _ _ hxs]
+    cases hl : ((h1.set t { kind := k, qn := 0 }) self).kids.getLast? with
+    | none => simp only; exact set_other_rec _ _ _ _ hxt
+    | some last =>
+      have hlast : S last := by
+        apply hB.2
+        rw [hself] at hl
+        exact List.mem_of_getLast? hl
+      have hxl : x ≠ last := fun e => hx (e ▸ hlast)
+      simp only
+      rw [setNext_other _ _ _ _ hxl, setPrev_other _ _ _ _ hxt]
+      exact set_other_rec _ _ _ _ hxt
+  · intro _ _
+    constructor
+    · unfold appRawHeap
+      cases ((h1.set t { kind := k, qn := 0 }) self).kids.getLast? <;> simp [hk]
+    · intro c hc
+      have : (setNext (appRawHeap (h1.set t { kind := k, qn := 0 }) self t) t none self).kids
+          = (h1 self).kids ++ [t] := by
+        unfold appRawHeap
+        cases ((h1.set t { kind := k, qn := 0 }) self).kids.getLast? <;> simp [hself]
+      rw [this] at hc
+      rcases List.mem_append.mp hc with hc | hc
+      · exact hB.2 c hc
+      · simp at hc; rw [hc]; exact hT
+
+theorem addText_stage {S : Id → Prop} {self t : Id} (hS : S self) (hT : S t) (hne : t ≠ self)
+    (a ne : Bool) : Stage S self (addText self t a ne) := by
+  intro h1 hB
+  unfold addText
+  cases a with
+  | false => simp; exact Agree.refl S h1
+  | true =>
+    cases ne with
+    | false => simp; exact ⟨Agree.refl S h1, hB⟩
+    | true =>
+      simp only [Bool.not_true, Bool.false_eq_true, if_false, if_true, run_bind, initNode_run]
+      exact appendNew_stage hS hT hne .text h1 hB
+
+theorem addCDATA_stage {S : Id → Prop} {self t : Id} (hS : S self) (hT : S t) (hne : t ≠ self)
+    (a : Bool) : Stage S self (addCDATA self t a) := by
+  intro h1 hB
+  unfold addCDATA
+  cases a with
+  | false => simp; exact Agree.refl S h1
+  | true =>
+    simp only [Bool.not_true, Bool.false_eq_true, if_false, run_bind, initNode_run]
+    exact appendNew_stage hS hT hne .cdata h1 hB
+
+theorem pure_stage (S : Id → Prop) (self : Id) : Stage S self (pure ()) := by
+  intro h1 hB; exact ⟨Agree.refl S h1, fun _ _ => hB⟩
+
+theorem setAttrs_stage {S : Id → Prop} {self : Id} (hS : S self) (f : Heap → List (Nat × Nat)) :
+    Stage S self (upd fun h => setAttrs h self (f h)) := by
+  intro h1 hB
+  simp only [run_upd]
+  refine ⟨fun x hx => setAttrs_other _ _ _ _ (fun e => hx (e ▸ hS)), fun _ _ => ?_⟩
+  exact ⟨by simpa using hB.1, by simpa using hB.2⟩
+
+theorem raise_stage (S : Id → Prop) (self : Id) (e : Err) : Stage S self (raise e) := by
+  intro h1 _; exact ⟨Agree.refl S h1, fun _ h => by cases h⟩
+
+theorem setAttrNS_stage {S : Id → Prop} {self : Id} (hS : S self) (key : Nat) (conv : Except Err Nat) :
+    Stage S self (setAttrNS self key conv) := by
+  unfold setAttrNS
+  cases conv with
+  | error x => exact raise_stage S self x
+  | ok v => exact setAttrs_stage hS _
+
+theorem applyAttr_stage {S : Id → Prop} {self : Id} (hS : S self) (a : AttrArg) :
+    Stage S self (applyAttr self a) := by
+  cases a with
+  | viaSet k t al key conv =>
+    unfold applyAttr setAttribute
+    cases k <;> cases t <;> cases al <;> simp
+    all_goals first | exact raise_stage S self _ | exact setAttrNS_stage hS key conv
+  | viaNS key conv => exact setAttrNS_stage hS key conv
+  | raw key val => exact setAttrs_stage hS _
+
+theorem Stage.seq {S : Id → Prop} {self : Id} {m k : M Unit} (hm : Stage S self m) (hk : Stage S self k) :
+    Stage S self (m >>= fun _ => k) := by
+  intro h1 hB
+  rw [run_bind]
+  obtain ⟨ha, hb⟩ := hm h1 hB
+  rcases hrun : m.run h1 with ⟨h2, (e | u)⟩
+  · rw [hrun] at ha
+    exact ⟨ha, fun _ h => by cases h⟩
+  · rw [hrun] at ha hb
+    have hB2 := hb u rfl
+    obtain ⟨ha2, hb2⟩ := hk h2 hB2
+    exact ⟨Agree.trans ha ha2, hb2⟩
+
+theorem applyAttrs_stage {S : Id → Prop} {self : Id} (hS : S self) (l : List AttrArg) :
+    Stage S self (applyAttrs self l) := by
+  induction l with
+  | nil => exact pure_stage S self
+  | cons a r ih => exact Stage.seq (applyAttr_stage hS a) ih
+
+theorem checkRequired_stage (S : Id → Prop) (self : Id) (l : List Nat) :
+    Stage S self (checkRequired self l) := by
+  induction l with
+  | nil => exact pure_stage S self
+  | cons r rs ih =>
+    intro h1 hB
+    unfold checkRequired
+    by_cases hr : lookupAttr r (h1 self).attrs = none
+    · simp [hr]; exact Agree.refl S h1
+    · simp [hr]; exact ih h1 hB
+
+/-- a last statement that is atomic: if the whole sequence raises, only new nodes were touched -/
+theorem Stage.then_atomic {S : Id → Prop} {self : Id} {m k : M Unit} (hm : Stage S self m)
+    (hk : ∀ h2 h3 e, k.run h2 = (h3, .error e) → h3 = h2)
+    {h1 h' : Heap} {e : Err} (hB : Building S self h1)
+    (hr : (m >>= fun _ => k).run h1 = (h', .error e)) : Agree S h1 h' := by
+  rw [run_bind] at hr
+  obtain ⟨ha, _⟩ := hm h1 hB
+  rcases hrun : m.run h1 with ⟨h2, (e2 | u)⟩
+  · rw [hrun] at hr ha; cases hr; exact ha
+  · rw [hrun] at hr ha
+    have := hk h2 h' e hr
+    rw [this]; exact ha
+
+/-- **C07 (constructor with `parent=`)**: if a factory call raises — text or cdata refused,
+    unknown attribute, invalid value, required attribute missing, or the parent refusing the
+    element — then every node other than the objects created by the call itself (the element,
+    its text / CDATA node) is exactly as before: the parent's child list, the links of its
+    children, all attributes.  The attach is the last statement and is itself atomic. -/
+theorem construct_atomic {h h' : Heap} {self qn : Nat} {allowsText : Bool}
+    {text : Option (Id × Bool)} {cdata : Option Id} {attrs : List AttrArg} {required : List Nat}
+    {parent : Option (Id × Bool)} {e : Err}
+    (hts : ∀ t ne, text = some (t, ne) → t ≠ self) (hcs : ∀ c, cdata = some c → c ≠ self)
+    (hr : (construct self qn allowsText text cdata attrs required parent).run h = (h', .error e)) :
+    ∀ x, x ≠ self → (∀ t ne, text = some (t, ne) → x ≠ t) → (∀ c, cdata = some c → x ≠ c) →
+      h' x = h x := by
+  let S : Id → Prop := fun x => x = self ∨ (∃ t ne, text = some (t, ne) ∧ x = t) ∨ (∃ c, cdata = some c ∧ x = c)
+  have hS : S self := Or.inl rfl
+  intro x hx1 hx2 hx3
+  have hxS : ¬ S x := by
+    intro hs
+    rcases hs with hs | ⟨t, ne, ht, hs⟩ | ⟨c, hc, hs⟩
+    · exact hx1 hs
+    · exact hx2 t ne ht hs
+    · exact hx3 c hc hs
+  unfold construct at hr
+  rw [run_bind, initNode_run] at hr
+  simp only at hr
+  have hB0 : Building S self (h.set self { kind := .elem, qn := qn }) := by
+    constructor <;> simp
+  have hA0 : Agree S h (h.set self { kind := .elem, qn := qn }) :=
+    fun y hy => set_other_rec _ _ _ _ (fun e => hy (e ▸ hS))
+  have hst1 : Stage S self (ctorText self allowsText text) := by
+    cases htx : text with
+    | none => exact pure_stage S self
+    | some tn =>
+      obtain ⟨t, ne⟩ := tn
+      exact addText_stage hS (Or.inr (Or.inl ⟨t, ne, htx, rfl⟩)) (hts t ne htx) allowsText ne
+  have hst2 : Stage S self (ctorCData self allowsText cdata) := by
+    cases hcx : cdata with
+    | none => exact pure_stage S self
+    | some c => exact addCDATA_stage hS (Or.inr (Or.inr ⟨c, hcx, rfl⟩)) (hcs c hcx) allowsText
+  have hfinal : ∀ h2 h3 e, (ctorAttach self parent).run h2 = (h3, .error e) → h3 = h2 := by
+    intro h2 h3 e hr2
+    cases parent with
+    | none => simp [ctorAttach] at hr2
+    | some pa => obtain ⟨p, al⟩ := pa; exact addElement_atomic hr2
+  -- the body is  s1 >>= (s2 >>= (s3 >>= (s4 >>= s5)))
+  have key := Stage.then_atomic (S := S) (self := self)
+    (m := ctorText self allowsText text >>= fun _ => ctorCData self allowsText cdata >>= fun _ =>
+      applyAttrs self attrs >>= fun _ => checkRequired self required)
+    (Stage.seq hst1 (Stage.seq hst2 (Stage.seq (applyAttrs_stage hS attrs) (checkRequired_stage S self required))))
+    hfinal hB0 (h' := h') (e := e)
+  have hassoc : ∀ (a b c d f : M Unit) (hh : Heap),
+      (a >>= fun _ => b >>= fun _ => c >>= fun _ => d >>= fun _ => f).run hh =
+      ((a >>= fun _ => b >>= fun _ => c >>= fun _ => d) >>= fun _ => f).run hh := by
+    intro a b c d f hh
+    simp only [run_bind]
+    rcases a.run hh with ⟨h1, (e1 | u1)⟩ <;> simp only
+    rcases b.run h1 with ⟨h2, (e2 | u2)⟩ <;> simp only
+    rcases c.run h2 with ⟨h3, (e3 | u3)⟩ <;> simp only
+  rw [hassoc] at hr
+  have hA := key hr
+  rw [hA x hxS, hA0 x hxS]
+
+/-- **C07 ("an element whose construction was refused is never found in the document")**: after a
+    refused factory call no node of the document lists the refused element as a child (in
+    particular not the `parent=` it was given), provided none did before (the object is new). -/
+theorem refused_not_found {h h' : Heap} {self qn : Nat} {allowsText : Bool}
+    {text : Option (Id × Bool)} {cdata : Option Id} {attrs : List AttrArg} {required : List Nat}
+    {parent : Option (Id × Bool)} {e : Err}
+    (hts : ∀ t ne, text = some (t, ne) → t ≠ self) (hcs : ∀ c, cdata = some c → c ≠ self)
+    (hnew : ∀ q, self ∉ (h q).kids)
+    (hr : (construct self qn allowsText text cdata attrs required parent).run h = (h', .error e)) :
+    ∀ q, q ≠ self → (∀ t ne, text = some (t, ne) → q ≠ t) → (∀ c, cdata = some c → q ≠ c) →
+      self ∉ (h' q).kids := by
+  intro q h1 h2 h3
+  rw [construct_atomic hts hcs hr q h1 h2 h3]
+  exact hnew q
+
+/-! ### the theorems are about the statement order: two counter-models, and non-vacuity -/
+
+/-- `insertBefore` with the statement order it had before repair 77f9994 (detach the new child,
+    then look for the reference child) -/
+def insertBeforeDetachFirst (p n : Id) (ref : Option Id) : M Unit := do
+  if (← rd fun h => (h p).kind) ≠ .elem then raise .Hierarchy
+  detachIfAttached n
+  match ref with
+  | none => appendChild p n
+  | some r => insertAtRef p n r
+
+/-- `setAttrNS` storing the raw value before the converter has accepted it -/
+def setAttrNSStoreFirst (e : Id) (key raw : Nat) (conv : Except Err Nat) : M Unit := do
+  upd fun h => setAttrs h e (storeAttr key raw (h e).attrs)
+  match conv with
+  | .error x => raise x
+  | .ok v => upd fun h => setAttrs h e (storeAttr key v (h e).attrs)
+
+/-- four elements, node 1 a child of node 0 -/
+def demoHeap : Heap :=
+  runOps Heap.empty [.newNode 0 .elem 0, .newNode 1 .elem 0, .newNode 2 .elem 0, .newNode 3 .elem 0, .append 0 1]
+
+/-- in the same monad, the other statement order is NOT atomic: `2.insertBefore(1, 3)` raises
+    NotFoundErr (3 is not a child of 2) and node 1 has silently left its parent 0.  So
+    `insertBefore_atomic` is a fact about the source order, not a property of the modelling. -/
+theorem atomicity_needs_the_order :
+    ((insertBeforeDetachFirst 2 1 (some 3)).run demoHeap).2 = .error .NotFound ∧
+    (((insertBeforeDetachFirst 2 1 (some 3)).run demoHeap).1 0).kids ≠ (demoHeap 0).kids := by
+  refine ⟨by rfl, by decide⟩
+
+/-- likewise for "store, then convert" -/
+theorem atomicity_needs_convert_first :
+    ((setAttrNSStoreFirst 0 7 8 (.error .ValueError)).run demoHeap).2 = .error .ValueError ∧
+    (((setAttrNSStoreFirst 0 7 8 (.error .ValueError)).run demoHeap).1 0).attrs ≠ (demoHeap 0).attrs := by
+  refine ⟨by rfl, by decide⟩
+
+/-- non-vacuity: the real `insertBefore` does raise on that input (and, by `insertBefore_atomic`,
+    leaves node 1 under node 0) -/
+example : ((insertBefore 2 1 (some 3)).run demoHeap).2 = .error .NotFound := by rfl
+example : (((insertBefore 2 1 (some 3)).run demoHeap).1 0).kids = [1] := by decide
+
+/-- non-vacuity of `construct_atomic`: `H(text='…', parent=0)` without its required attribute 5
+    raises AttributeError after its Text node 11 was created; the parent 0 still has the single
+    child 1 -/
+example : ((construct 10 0 true (some (11, true)) none [] [5] (some (0, true))).run demoHeap).2
+    = .error .AttributeError := by rfl
+example : (((construct 10 0 true (some (11, true)) none [] [5] (some (0, true))).run demoHeap).1 0).kids = [1] := by
+  decide
+/-- … and the same call with the attribute present attaches the element last -/
+example : (((construct 10 0 true (some (11, true)) none [.viaNS 5 (.ok 1)] [5] (some (0, true))).run demoHeap).1 0).kids
+    = [1, 10] := by decide
+
 end OdfModel.Props.C07
